@@ -790,10 +790,44 @@ func vfRunCoA(f []string) string {
 //   wrong:<code>:<attrs>           signed with another secret
 //   flip:<code>:<attrs>            genuine, then one attribute bit flipped
 //   otherid:<code>:<attrs>         genuine for identifier+1
+// vfBuildMulti builds a reply with SEVERAL attributes 80 (combo letters: V = 18-octet copy carrying the HMAC a verifier of
+// that copy expects, G = 18 octets of garbage, W = attribute 80 of length 7); the Response Authenticator is genuine.
+func vfBuildMulti(combo string, code int, attrs, req, secret []byte, salt int) []byte {
+	body := append([]byte(nil), attrs...)
+	offs := make([]int, len(combo))
+	for i, c := range combo {
+		if c == 'W' {
+			offs[i] = -1
+			body = append(body, 80, 7)
+			body = append(body, bytes.Repeat([]byte{byte(0x11 + i + salt)}, 5)...)
+		} else {
+			offs[i] = 20 + len(body) + 2
+			body = append(body, 80, 18)
+			body = append(body, bytes.Repeat([]byte{byte(0xa0 + 7*i + salt)}, 16)...)
+		}
+	}
+	p := []byte{byte(code), req[1], 0, 0}
+	binary.BigEndian.PutUint16(p[2:4], uint16(20+len(body)))
+	p = append(p, req[4:20]...)
+	p = append(p, body...)
+	for i := len(combo) - 1; i >= 0; i-- {
+		if combo[i] == 'V' {
+			tmp := append([]byte(nil), p...)
+			copy(tmp[offs[i]:offs[i]+16], vfZero16)
+			copy(p[offs[i]:offs[i]+16], vfHMAC(secret, tmp))
+		}
+	}
+	copy(p[4:20], vfMD5(p[:4], req[4:20], p[20:], secret))
+	return p
+}
+
 func vfBuildReply(recipe string, req []byte, secret []byte, k int) []byte {
 	x := strings.Split(recipe, ":")
 	code, _ := strconv.Atoi(x[1])
 	attrs := vfUnhex(x[2])
+	if strings.HasPrefix(x[0], "mm") {
+		return vfBuildMulti(x[0][2:], code, attrs, req, secret, k)
+	}
 	id := req[1]
 	if x[0] == "otherid" {
 		id++
@@ -842,6 +876,13 @@ func vfBuildReply(recipe string, req []byte, secret []byte, k int) []byte {
 func vfServerTimeout(recipes []string) time.Duration {
 	for _, r := range recipes {
 		k := strings.SplitN(r, ":", 2)[0]
+		if strings.HasPrefix(k, "mm") { // acceptable (under the first-18-octet-copy rule) only if that copy is a V
+			first := strings.TrimLeft(k[2:], "W")
+			if first != "" && first[0] == 'V' {
+				return 5 * time.Second
+			}
+			continue
+		}
 		if k != "forge" && k != "wrong" && k != "flip" && k != "otherid" && k != "badma" {
 			return 5 * time.Second
 		}
